@@ -200,7 +200,11 @@ func c16(env *Env, rep *Report) {
 	// to the client ahead of the channel response (the packet answering a request carries the response type)
 	for _, kind := range []string{"ws", "legacy"} {
 		sc := c16OrderScenario(kind)
-		exploreConc(env, rep, sc, 2, nil, c16OrderCheck(sc))
+		ob := 2
+		if env.thorough() {
+			ob = 3
+		}
+		exploreConc(env, rep, sc, ob, nil, c16OrderCheck(sc))
 	}
 	if gwBin() != "" {
 		bindCaps(rep, "C16", env)
